@@ -134,8 +134,9 @@ class Model:
             rho_down = vcat(slc(rho, 1, None), rhoN1)
         rho_next = P.step_density(rho, q, q_up, lam, L, T)
         if cfg.link_cls == "LinkWithVsl":
+            vsl = [0] if cfg.n1 else [1, 3]  # the concrete limited segments of wire.py
             Veq = P.controlled_Veq(
-                rho, ("w", "v_ctrl", "SELF", "vsl"), "vsl", _p("SELF", "alpha"),
+                rho, V("v_ctrl", "SELF.vsl"), vsl, _p("SELF", "alpha"),
                 _p("SELF", "v_free"), _p("SELF", "rho_crit"), _p("SELF", "a"))
         else:
             Veq = P.Veq(rho, _p("SELF", "v_free"), _p("SELF", "rho_crit"), _p("SELF", "a"))
